@@ -118,8 +118,7 @@ def main():
     for k, v in sorted(PENDING.items()):
         if k not in built:
             na.append({"property_id": k, "reason": v})
-    baseline = ("cd /repo && cargo nextest run --workspace --no-fail-fast --test-threads 8 --offline "
-                "|| cargo test --workspace --no-fail-fast --offline")
+    baseline = "cd /repo && cargo nextest run --workspace --no-fail-fast --test-threads 8 --offline"
     m = {
         "version": 1,
         "setup_cmd": "bin/build",
